@@ -7,6 +7,7 @@ Not decided: that `cmp` itself orders by value, the digit loops of `eq` / `is_ne
 """
 from .common import *
 from analysis import core
+from . import arith
 
 PROP = "C07"
 INFO = dict(
@@ -21,6 +22,47 @@ def order_reps(A):
     """three representatives: self < other, self == other, self > other"""
     lo, hi = (-3, 5) if is_signed(A) else (3, 5)
     return [("less", V(A, lo), V(A, hi)), ("equal", V(A, hi), V(A, hi)), ("greater", V(A, hi), V(A, lo))]
+
+
+def wide_pairs(A):
+    """(name, a, b) value functions of the world: small, boundary, and pairs differing only in high bits"""
+    def top(W):
+        return 1 << (W.bits(A) - 2)
+    ps = [("s_less", lambda W: 3, lambda W: 5), ("s_equal", lambda W: 5, lambda W: 5), ("s_greater", lambda W: 5, lambda W: 3),
+          ("hi_less", lambda W: 5, lambda W: top(W) + 3), ("hi_greater", lambda W: top(W) + 3, lambda W: 5),
+          ("hi_equal", lambda W: top(W) + 3, lambda W: top(W) + 3), ("hi_low_less", lambda W: top(W) + 3, lambda W: top(W) + 5),
+          ("hi_only", lambda W: top(W) + 3, lambda W: 2 * top(W) - 1 if False else top(W) + (top(W) >> 1) + 3),
+          ("d2_less", lambda W: (1 << (W.bits(A) // 2)) + 9, lambda W: (1 << (W.bits(A) // 2 + 1)) + 1),
+          ("max_pair", lambda W: arith.rng(W, A)[1] - 1, lambda W: arith.rng(W, A)[1])]
+    if is_signed(A):
+        ps += [("neg_less", lambda W: -3, lambda W: 5), ("neg_neg", lambda W: -5, lambda W: -3), ("min_max", lambda W: arith.rng(W, A)[0], lambda W: arith.rng(W, A)[1]),
+               ("neg_hi", lambda W: -top(W) - 3, lambda W: -5), ("neg_hi_only", lambda W: -top(W) - (top(W) >> 1) - 3, lambda W: -top(W) - 3),
+               ("neg_equal", lambda W: -top(W) - 3, lambda W: -top(W) - 3)]
+    return ps
+
+
+def trait_order_rows(K, A):
+    T = T_(A)
+    out = []
+
+    def envf(fa, fb):
+        return lambda W: {0: W.wrap(A, fa(W)), 1: W.wrap(A, fb(W))}
+
+    def ordv(a, b):
+        return 255 if a < b else (0 if a == b else 1)       # Ordering discriminants Less = -1 (0xff), Equal = 0, Greater = 1
+    rows = [(tr(A, "core::cmp::Ord", [], "cmp"), lambda W, env: ("val", ordv(env[0].v, env[1].v))),
+            (tr(A, "core::cmp::PartialOrd", [T], "partial_cmp"), lambda W, env: ("some", ordv(env[0].v, env[1].v))),
+            (tr(A, "core::cmp::Ord", [], "max"), lambda W, env: ("val", W.wrap(A, max(env[0].v, env[1].v)))),
+            (tr(A, "core::cmp::Ord", [], "min"), lambda W, env: ("val", W.wrap(A, min(env[0].v, env[1].v)))),
+            (inh(A, "max"), lambda W, env: ("val", W.wrap(A, max(env[0].v, env[1].v)))),
+            (inh(A, "min"), lambda W, env: ("val", W.wrap(A, min(env[0].v, env[1].v)))),
+            (inh(A, "lt"), lambda W, env: ("val", env[0].v < env[1].v)), (inh(A, "ge"), lambda W, env: ("val", env[0].v >= env[1].v))]
+    for fid, ex in rows:
+        if K.F.lookup(fid) is None:
+            continue
+        reps = [("w_" + n, envf(fa, fb), ex) for n, fa, fb in wide_pairs(A)] + [("w_" + n + "_rev", envf(fb, fa), ex) for n, fa, fb in wide_pairs(A)]
+        out += core.g_row(K, PROP, fid, reps)
+    return out
 
 
 def obligations(ctx, tier):
@@ -58,6 +100,8 @@ def obligations(ctx, tier):
             for m in ("max", "min"):
                 out.append(core.f_row(K, PROP, tr(A, "core::cmp::Ord", [], m), call(inh(A, m), P(0), P(1))))
             out.append(core.f_row(K, PROP, tr(A, "core::cmp::Ord", [], "clamp"), call(inh(A, "clamp"), P(0), P(1), P(2))))
+            # ---- G: the trait entry points on ordered pairs, including pairs that differ only above bit 128 / in the top digit
+            out += trait_order_rows(K, A)
             # ---- P-: comparisons and sign predicates never reach an API-contract panic
             from analysis import audit
             for m in ["cmp", "eq", "ne", "lt", "le", "gt", "ge", "max", "min"] + (["signum", "is_positive", "is_negative"] if is_signed(A) else []):
